@@ -289,6 +289,8 @@ def value_games(space, kind, cfg):
     """Value games (no outcome) of a named space, absolute units."""
     if space == "PK":
         return games_PK(cfg)
+    if space == "P2z":  # 2 teams of 1-2 players over V4 + an exactly-zero-sigma member (valid whenever tau > 0): mixed zero / non-zero teams
+        return (g for sh in shapes(2, 2) for g in games_product(sh, V4 + [(6, 0.0)], cfg))
     if space == "S2":
         return games_S2(kind, cfg)
     if space == "P2":
